@@ -1,4 +1,4 @@
-\* exhaustive (quick): repaired (capacity re-check in waitChannel, sourceKey from the mapping), all counts 1..4 x 1..4, both namings, depth 8
+\* exhaustive (quick): repaired design with collection starts that fail after the pair was handled (OfferFail), depth 7
 SPECIFICATION Spec
 CHECK_DEADLOCK FALSE
 VIEW view
@@ -9,8 +9,8 @@ CONSTANTS
   MaxT = 4
   Pairs <- AllPairs
   Namings = {"distinct", "same"}
-  MaxOps = 8
+  MaxOps = 7
   HandoffChecksCapacity = TRUE
   ForwardCountedOnce = FALSE
   SourceKeyFromMapping = TRUE
-  WithFail = FALSE
+  WithFail = TRUE
